@@ -47,6 +47,12 @@ def scenarios(tier, rng):
         pspec, full = P[pname]
         out.append(base_scenario(f"{kind}-{pname}-f1-to-convergence", kind, pname, pspec, full, 1, 2, rng.random() < 0.5,
                                  [{"ops": [{"op": "new"}, {"op": "solve", "k": BIG}, {"op": "wait"}, {"op": "list", "dir": "@A"}]}]))
+    # an unrelated, verbose solver instance is constructed before the run (logging is process-global state)
+    for kind, pname, keep in (("VI", "forest", 3), ("PI", "forest", 2), ("VI", "tabular", 2)):
+        pspec, full = P[pname]
+        out.append(base_scenario(f"{kind}-{pname}-verbose-interloper-m{keep}", kind, pname, pspec, full, 1, keep, True,
+                                 [{"ops": [{"op": "new"}, {"op": "interloper", "verbose": 4}, {"op": "solve", "k": 7},
+                                           {"op": "wait"}, {"op": "list", "dir": "@A"}]}]))
     # more than nine retained checkpoints, steps with one and two digits
     pspec, full = P["tabular"]
     out.append(base_scenario("VI-tabular-keep12-f1", "VI", "tabular", pspec, full, 1, 12, False,
@@ -97,4 +103,5 @@ def run(tier):
     rep.extra["scenarios_with_frequency_0"] = sum(1 for s in scs if s["freq"] == 0)
     rep.assumptions = ["listings are taken after wait_until_finished()", "Orbax 0.12.4 as the environment"]
     rep.extra["machinery_retries"] = list(ckptlib.RETRIES)
+    rep.extra["scenarios_skipped_reference_did_not_converge"] = list(ckptlib.SKIPPED)
     return rep.finish()
